@@ -202,6 +202,25 @@ def step (s : St) (ws : List String) : St × List String :=
       let t' : Tree.Tree := { w.t with label := updF w.t.label n l.toList }
       ({ s with w := { w with t := t' } }, [])
     | none => (s, ["bad-op"])
+  | "setkids" :: p :: cs =>
+    -- state observed after an operation that is not part of this model: the children of `p`, under their labels
+    match p.toNat?, nats cs with
+    | some p, some cs =>
+      let t' : Tree.Tree := { w.t with children := updF w.t.children p (cs.map fun c => (w.t.label c, c)) }
+      ({ s with w := { w with t := t' } }, [])
+    | _, _ => (s, ["bad-op"])
+  | ["setparent", c, p] =>
+    match c.toNat? with
+    | some c =>
+      if p = "-" then
+        let t' : Tree.Tree := { w.t with parent := updF w.t.parent c none }
+        ({ s with w := { w with t := t' } }, [])
+      else match p.toNat? with
+        | some p =>
+          let t' : Tree.Tree := { w.t with parent := updF w.t.parent c (some p) }
+          ({ s with w := { w with t := t' } }, [])
+        | none => (s, ["bad-op"])
+    | none => (s, ["bad-op"])
   | ["cached", n, b] =>
     match n.toNat?, parseBool b with
     | some n, some b => ({ s with w := { w with cached := updF w.cached n b } }, [])
